@@ -383,7 +383,7 @@ impl<'a> Gen<'a> {
         let start = match self.r.below(8) { 0 | 1 | 2 => "-".to_string(), 3 => cur.to_string(), 4 | 5 => (cur + 1).to_string(), _ => (cur + 1 + self.r.below(3)).to_string() };
         let s_num = start.parse::<u64>().unwrap_or(cur + 1);
         let end = match self.r.below(4) { 0 => "-".to_string(), _ => (s_num + 1 + self.r.below(20)).to_string() };
-        let ad = match self.r.below(5) { 0 => lp.clone(), _ => BASE_DENOMS[self.r.below(6) as usize].to_string() };
+        let ad = match self.r.below(8) { 0 => lp.clone(), 1 | 2 => "uom".to_string(), 3 => "uusd".to_string(), _ => BASE_DENOMS[self.r.below(6) as usize].to_string() };
         let aa = match self.r.below(5) { 0 => 999, 1 => 1000, _ => 1000 + self.r.below(10_000_000) as u128 };
         // farms are often created by the same account (several active farms sharing an owner)
         let sender = if self.r.chance(1, 2) { "u1" } else { pick_user(self.r) };
@@ -391,9 +391,19 @@ impl<'a> Gen<'a> {
         let aa = if BASE_DENOMS.contains(&ad.as_str()) { aa } else { aa.min(have / 2) };
         let asset = coin(aa, ad.clone());
         let mut funds = self.farm_fee_funds(&asset);
-        match self.r.below(12) {
+        match self.r.below(16) {
             0 => { funds.pop(); }
             1 => { funds[0].amount += cosmwasm_std::Uint128::one(); }
+            // amount mismatches on the reward-denom coin: only the fee, only the reward, one unit short, a fraction
+            3 | 4 | 5 => {
+                let feeq: mantra_dex_std::farm_manager::Config = self.run.h.w.app.wrap()
+                    .query_wasm_smart(self.run.h.w.a("fm"), &mantra_dex_std::farm_manager::QueryMsg::Config {}).unwrap();
+                let fee_amt = if feeq.create_farm_fee.denom == ad { feeq.create_farm_fee.amount.u128() } else { 0 };
+                if let Some(c) = funds.iter_mut().find(|c| c.denom == ad) {
+                    let v = match self.r.below(4) { 0 => fee_amt, 1 => aa, 2 => (aa + fee_amt).saturating_sub(1), _ => aa / 8 + 1 };
+                    if v > 0 { c.amount = cosmwasm_std::Uint128::new(v); }
+                }
+            }
             2 => {
                 // an unrelated extra coin (funds always carry distinct denoms, as on a real chain)
                 let extra = ["uluna", "udai", "uusdt"].into_iter().find(|d| !funds.iter().any(|c| c.denom == *d)).unwrap();
@@ -427,6 +437,38 @@ impl<'a> Gen<'a> {
         let owner = self.run.h.w.n(f.owner.as_str());
         let sender = match self.r.below(6) { 0 => "owner".to_string(), 1 => pick_user(self.r).to_string(), _ => owner };
         self.emit(format!("tx {} 0 fm closefarm {}", sender, f.identifier));
+    }
+
+    /// directed scenario for C09: several *active* farms on one LP token sharing an owner, then an
+    /// emergency exit from a position on that token
+    pub fn op_scenario_shared_owner_emergency(&mut self) {
+        let Some(lp) = self.some_lp() else { return self.op_provide() };
+        let cur = self.cur_epoch();
+        let real = self.run.h.w.rd(&lp);
+        let n_u1 = self.farms().iter().filter(|f| f.lp_denom == real && self.run.h.w.n(f.owner.as_str()) == "u1").count();
+        for k in n_u1..2 {
+            let aa = 2000 + self.r.below(1_000_000) as u128;
+            let asset = coin(aa, "uusdc");
+            let funds = self.farm_fee_funds(&asset);
+            let (e, tag) = (cur + 10 + self.r.below(10), self.r.below(1000));
+            self.emit(format!("tx u1 {} fm createfarm {} {} {} uusdc {} sc{}{}", funds_str(&funds), lp, cur + 1, e, aa, k, tag));
+        }
+        // somebody locks LP of that token
+        let holders = self.lp_holders(&lp);
+        if let Some(u) = holders.first().copied() {
+            let bal = self.run.h.w.balance(u, &lp);
+            let amt = bal / 10 + 1;
+            let dur = DAY * (1 + self.r.below(360));
+            let tag = self.r.below(1000);
+            self.emit(format!("tx {} 1 {} {} fm createpos sce{} {} -", u, lp, amt, tag, dur));
+        }
+        let adv = (1 + self.r.below(3)) * DAY * 1_000_000_000;
+        self.emit(format!("advance {}", adv));
+        let ps: Vec<_> = self.positions().into_iter().filter(|p| p.lp_asset.denom == real).collect();
+        if let Some(p) = ps.first() {
+            let owner = self.run.h.w.n(p.receiver.as_str());
+            self.emit(format!("tx {} 0 fm withdrawpos {} true", owner, p.identifier));
+        }
     }
 
     pub fn op_fm_config(&mut self) {
@@ -525,13 +567,12 @@ pub fn gen_fm_case(r: &mut Rng, id: u64, len: u64, faults: bool, o: &mut Out) {
             34 => g.op_fm_config(),
             35 => g.op_own("fm"),
             36 => g.op_donate(),
+            37 => g.op_scenario_shared_owner_emergency(),
             _ => g.op_advance(),
         }
     }
     g.o.raw("end");
 }
-
-pub fn run_placeholder() {}
 
 pub fn run(kind: &str, seed: u64, cases: u64, replay: Option<&str>, o: &mut Out) {
     if let Some(p) = replay {
